@@ -1053,4 +1053,399 @@ Section Proofs.
     unfold goto in Hs; injection Hs as <-; own_new Hth' th'.
     exists st, (l_mid th), (l_uid th). rewrite Om, Ou. split_and!; auto.
   Qed.
+
+  Lemma own_MReleaseHit s t th e s' v :
+    Inv1 s -> InvF s -> threads s t = Some th -> t_pc th = MReleaseHit v ->
+    step_thread s t th e = Some s' ->
+    forall th', threads s' t = Some th' -> ReaderInv s' th'.
+  Proof.
+    own_pre s t th e s'. destruct e; try discriminate Hs. injection Hs as <-. own_new Hth' th'.
+    destruct (holder_facts s t th HAA HC Eth ltac:(rewrite Hpc; reflexivity)) as (_ & HI & _).
+    unfold HolderInv in HI. rewrite Hpc in HI. destruct HI as [_ Hview].
+    exists stl, (readp s).1, (readp s).2. split_and!; [exact Hlast| |lia].
+    rewrite (view_same_maps stl (cur s) _ Hlm Hlu). exact Hview.
+  Qed.
+
+  Lemma store_view th c :
+    Inv c -> path_ok th c -> is_refresh th = false ->
+    view (seq_apply need_merge ttl th c) (call_pid (t_call th)) =
+    Some (e_prov (miss_entry (seq_apply need_merge ttl th c) (l_now th) (l_fouts th))).
+  Proof.
+    intros HI Hpath Hir. unfold path_ok in Hpath. rewrite Hir in Hpath. destruct Hpath as [Hmp _].
+    assert (Hsa : seq_apply need_merge ttl th c =
+                  (C06_PCache.miss need_merge ttl (l_now th) (call_pid (t_call th)) (l_fouts th) c).1).
+    { unfold seq_apply, is_refresh in *. destruct (t_call th); try discriminate Hir;
+        unfold C06_PCache.fetch_missing, miss_path in *;
+        (destruct (st_write c !! _); [destruct (view c _); [contradiction|]|]); reflexivity. }
+    rewrite Hsa.
+    destruct (miss_spec need_merge ttl (l_now th) (call_pid (t_call th)) (l_fouts th) c HI) as (_ & Hvw & Hsq & _).
+    rewrite Hvw. do 2 f_equal. symmetry. apply miss_entry_seq. exact Hsq.
+  Qed.
+
+  Lemma own_TStore s t th e s' b :
+    Inv1 s -> InvF s -> threads s t = Some th -> t_pc th = TStore b ->
+    step_thread s t th e = Some s' ->
+    forall th', threads s' t = Some th' -> ReaderInv s' th'.
+  Proof.
+    own_pre s t th e s'. destruct e; try discriminate Hs. injection Hs as <-. own_new Hth' th'.
+    destruct (holder_facts s t th HAA HC Eth ltac:(rewrite Hpc; reflexivity)) as (_ & HI & _).
+    unfold HolderInv in HI. rewrite Hpc in HI.
+    assert (Htail : tail_inv s th) by (destruct b; apply HI).
+    destruct Htail as (Hpath & _).
+    destruct (t_call th) eqn:Ec; cbn; try exact I; intros _.
+    all: assert (Hir : is_refresh th = false) by (unfold is_refresh; rewrite Ec; reflexivity).
+    all: pose proof (store_view th (cur s) G1 Hpath Hir) as Hsv; rewrite Ec in Hsv.
+    all: eexists _, _, _; split; [rewrite lookup_app_r by lia; replace (length (hist s) - length (hist s)) with 0 by lia; reflexivity|].
+    all: (split; [exact Hsv|unfold cur_ver in *; lia]).
+  Qed.
+
+  Lemma own_TRelease s t th e s' :
+    Inv1 s -> InvF s -> threads s t = Some th -> t_pc th = TRelease ->
+    step_thread s t th e = Some s' ->
+    forall th', threads s' t = Some th' -> ReaderInv s' th'.
+  Proof.
+    own_pre s t th e s'. destruct e; try discriminate Hs. unfold goto in Hs. injection Hs as <-. own_new Hth' th'.
+    destruct (holder_facts s t th HAA HC Eth ltac:(rewrite Hpc; reflexivity)) as (_ & HI & _).
+    unfold HolderInv in HI. rewrite Hpc in HI. destruct HI as [Hq _].
+    unfold refresh_end. destruct (t_call th) eqn:Ec; cbn; try exact I.
+    all: assert (Hir : is_refresh th = false) by (unfold is_refresh; rewrite Ec; reflexivity).
+    all: destruct (HR Hir) as (st & mid & uid & Hv & Hvw & Hbv); exists st, mid, uid; split_and!; auto.
+    all: cbn [call_pid] in Hvw; (etransitivity; [exact Hvw|]); do 2 f_equal; apply miss_entry_seq; symmetry; exact Hq.
+  Qed.
+
+  Lemma ReaderInv_own s t th e s' :
+    Inv1 s -> InvF s -> threads s t = Some th -> step_thread s t th e = Some s' ->
+    forall th', threads s' t = Some th' -> ReaderInv s' th'.
+  Proof.
+    intros H1 HF Eth Hs.
+    destruct (special (t_pc th)) eqn:Hsp; [|eapply own_other; eauto].
+    destruct (t_pc th) eqn:Hpc; try discriminate Hsp.
+    - eapply own_load; eauto.
+    - eapply own_GLookupU; eauto.
+    - eapply own_GLookupM; eauto.
+    - eapply own_GCas; eauto.
+    - eapply own_load; eauto.
+    - eapply own_LBuild; eauto.
+    - eapply own_load; eauto.
+    - eapply own_NCount; eauto.
+    - eapply own_MReleaseHit; eauto.
+    - eapply own_TStore; eauto.
+    - eapply own_TRelease; eauto.
+  Qed.
+
+  (* what a step of thread t does to the thread table *)
+  Lemma step_threads s t th e s' :
+    t < next_tid s -> threads s t = Some th -> step_thread s t th e = Some s' ->
+    (exists th', threads s' t = Some th' /\ t_prev th' = t_prev th /\ l_born th' = l_born th /\
+                 t_call th' = t_call th /\ is_fin (t_pc th) = false) /\
+    (forall t', t' <> t ->
+       threads s' t' = threads s t' \/
+       (t' = next_tid s /\ threads s' t' = Some (new_thread CAuto None (cur_ver s)))).
+  Proof.
+    intros Hlt Eth Hs. inv_step Hs; cbn; (split;
+      [ eexists; split; [rewrite ?upd_other by lia; apply upd_same|cbn; auto]
+      | intros t' Hne; rewrite ?(upd_other _ t) by exact Hne; auto ]).
+    all: try (destruct (Nat.eq_dec t' (next_tid s)) as [->|Hn];
+              [ right; split; [reflexivity|apply upd_same]
+              | left; rewrite upd_other by exact Hn; rewrite upd_other by exact Hne; reflexivity ]).
+  Qed.
+
+  Lemma tid_lt s t th : InvA s -> threads s t = Some th -> t < next_tid s.
+  Proof.
+    intros (HA & _) Eth. destruct (le_lt_dec (next_tid s) t) as [Hle|]; [|assumption].
+    rewrite HA in Eth by exact Hle. discriminate.
+  Qed.
+
+  Lemma fin_no_step s t th e : is_fin (t_pc th) = true -> step_thread s t th e = None.
+  Proof. intro H. unfold C07_PCacheConc.step_thread. destruct (t_pc th); try discriminate H. destruct e; reflexivity. Qed.
+
+  Lemma InvF_step s l s' : Inv1 s -> InvF s -> stepf s l = Some s' -> InvF s'.
+  Proof.
+    intros H1 HF Hs. pose proof H1 as (HAA & HP & HC). pose proof HF as [HF1 HF2].
+    pose proof HAA as (HA & HB1 & HB2).
+    destruct l as [c after|[]|t e].
+    - (* Spawn *)
+      assert (Hgen : forall th0, stepf s (Spawn c after) = Some (with_next_tid (with_threads s (upd (threads s) (next_tid s) th0)) (S (next_tid s))) ->
+                 ReaderInv s th0 -> t_prev th0 = after -> l_born th0 = cur_ver s ->
+                 (forall t1, after = Some t1 -> exists th1, threads s t1 = Some th1 /\ is_fin (t_pc th1) = true) ->
+                 InvF (with_next_tid (with_threads s (upd (threads s) (next_tid s) th0)) (S (next_tid s)))).
+      { intros th0 Hst HR0 Hprev Hborn Hafter. split.
+        - intros t th Ht. cbn in Ht. apply upd_cases in Ht as [[-> ->]|[Hne Ht]].
+          + eapply ReaderInv_frame; [exact Hst|reflexivity|exact HR0].
+          + eapply ReaderInv_frame; [exact Hst|reflexivity|exact (HF1 t th Ht)].
+        - intros t th t1 Ht Hp. cbn in Ht. cbn.
+          apply upd_cases in Ht as [[-> ->]|[Hne Ht]].
+          + rewrite Hprev in Hp. destruct (Hafter t1 Hp) as (th1 & E1 & Hok).
+            exists th1. split_and!; [|exact Hok|].
+            * rewrite upd_other; [exact E1|]. pose proof (tid_lt s t1 th1 HAA E1). lia.
+            * intros v Hv. destruct (HF1 t1 th1 E1) as [_ HR1]. rewrite Hv in HR1.
+              destruct HR1 as (st & mid & uid & Hh & _). apply lookup_lt_Some in Hh.
+              rewrite Hborn. unfold cur_ver. lia.
+          + destruct (HF2 t th t1 Ht Hp) as (th1 & E1 & Hf & Hle). exists th1. split_and!; auto.
+            rewrite upd_other; [exact E1|]. pose proof (tid_lt s t1 th1 HAA E1). lia. }
+      cbn in Hs.
+      destruct c; try discriminate Hs;
+        (destruct (match after with Some t0 => _ | None => true end) eqn:Eok; [|discriminate Hs]);
+        injection Hs as <-; (apply Hgen; [cbn; rewrite Eok; reflexivity| |reflexivity|reflexivity|]);
+        try (split; [cbn; lia|exact I]);
+        (intros t1 ->; destruct (threads s t1) as [th1|]; [exists th1; split; [reflexivity|exact Eok]|discriminate Eok]).
+    - cbn in Hs. destruct (auto_on s && armed s) eqn:Ea; [|discriminate]. injection Hs as <-.
+      assert (Hst : stepf s TimerFire = Some (with_auto s false true (S (n_fires s)) (n_spawns s) (n_rearms s)))
+        by (cbn; rewrite Ea; reflexivity).
+      split.
+      + intros t th Ht. eapply ReaderInv_frame; [exact Hst|reflexivity|exact (HF1 t th Ht)].
+      + exact HF2.
+    - cbn in Hs. destruct (threads s t) as [th|] eqn:Eth; [|discriminate].
+      pose proof (tid_lt s t th HAA Eth) as Hlt.
+      assert (Hst : stepf s (Step t e) = Some s') by (cbn; rewrite Eth; exact Hs).
+      destruct (step_threads s t th e s' Hlt Eth Hs) as ((thn & Hthn & Hprev & Hborn & _ & Hnf) & Hoth).
+      split.
+      + intros t' th' Ht'. destruct (Nat.eq_dec t' t) as [->|Hne].
+        * eapply ReaderInv_own; eauto.
+        * destruct (Hoth t' Hne) as [Hsame|[-> Hnew]].
+          -- rewrite Hsame in Ht'. eapply ReaderInv_frame; [exact Hst| |exact (HF1 t' th' Ht')].
+             intro Hrel.
+             assert (Hnh : holding (t_pc th) = false).
+             { destruct (holding (t_pc th)) eqn:Hh; [|reflexivity].
+               pose proof (HB1 t th Eth Hh) as S1.
+               pose proof (HB1 t' th' Ht' ltac:(rewrite Hrel; reflexivity)) as S2. congruence. }
+             apply (nonholder_keeps s t th e s' Hnh Hs).
+          -- rewrite Hnew in Ht'. injection Ht' as <-. split; [cbn; apply (step_cur_ver s _ s' Hst)|exact I].
+      + intros t' th' t1 Ht' Hp.
+        assert (Hfin_keep : forall th1, threads s t1 = Some th1 -> is_fin (t_pc th1) = true -> threads s' t1 = Some th1).
+        { intros th1 E1 Hf. destruct (Nat.eq_dec t1 t) as [->|Hne1].
+          - rewrite Eth in E1. injection E1 as <-. congruence.
+          - destruct (Hoth t1 Hne1) as [Hsame|[-> _]]; [congruence|].
+            pose proof (tid_lt s _ th1 HAA E1). lia. }
+        destruct (Nat.eq_dec t' t) as [->|Hne].
+        * rewrite Hthn in Ht'. injection Ht' as <-. rewrite Hprev in Hp.
+          destruct (HF2 t th t1 Eth Hp) as (th1 & E1 & Hf & Hle). exists th1.
+          split_and!; [apply Hfin_keep; assumption|exact Hf|]. rewrite Hborn. exact Hle.
+        * destruct (Hoth t' Hne) as [Hsame|[-> Hnew]].
+          -- rewrite Hsame in Ht'. destruct (HF2 t' th' t1 Ht' Hp) as (th1 & E1 & Hf & Hle). exists th1.
+             split_and!; [apply Hfin_keep; assumption|exact Hf|exact Hle].
+          -- rewrite Hnew in Ht'. injection Ht' as <-. discriminate Hp.
+  Qed.
+
+  Definition Inv2L (s : gst) : Prop := Inv1 s /\ InvF s.
+
+  Lemma Inv2L_reachable s : reachable s -> Inv2L s.
+  Proof.
+    apply LTS.invariant_reachable.
+    - split; [split_and!; [apply InvA_init|apply InvP_init|apply InvC_init]|apply InvF_init].
+    - intros s0 l s1 [(A & P & C) F] Hs. split; [split_and!|];
+        [eapply InvA_step|eapply InvP_step|eapply InvC_step|eapply InvF_step]; eauto.
+      split_and!; assumption.
+  Qed.
+
+  (* ================================================================ *)
+  (* The theorems                                                      *)
+
+  (* every result returned by Get / GetResults (hit or miss), List, Len is the sequential
+     model's answer on one snapshot of the history, namely the one current at the read's
+     Load (hit, List, Len), at its second look (stored meanwhile) or at its own Store (miss) *)
+  Theorem reads_linearise_at_load_l s t th r :
+    reachable s -> threads s t = Some th -> t_pc th = Fin r ->
+    match r with
+    | ResGet v =>
+      exists st mid uid, hist s !! l_ver th = Some (st, mid, uid) /\
+        view st (call_pid (t_call th)) = Some v /\ l_born th <= l_ver th <= cur_ver s
+    | ResList l =>
+      exists st mid uid, hist s !! l_ver th = Some (st, mid, uid) /\
+        l = listing st /\ l_born th <= l_ver th <= cur_ver s
+    | ResLen n =>
+      exists st mid uid, hist s !! l_ver th = Some (st, mid, uid) /\
+        n = len st /\ l_born th <= l_ver th <= cur_ver s
+    | _ => True
+    end.
+  Proof.
+    intros Hr Eth Hpc. destruct (Inv2L_reachable s Hr) as [_ [HF _]].
+    destruct (HF t th Eth) as [_ HR]. rewrite Hpc in HR.
+    destruct r; auto; destruct HR as (st & mid & uid & Hv & Hx & Hb); exists st, mid, uid;
+      (split_and!; auto; apply lookup_lt_Some in Hv; unfold cur_ver; lia).
+  Qed.
+
+  (* the ghost sequential state is a state of the C06 model: its invariants hold *)
+  Theorem cur_is_sequential_l s : reachable s -> Inv (cur s) /\ Inv2 (cur s).
+  Proof. intro Hr. destruct (Inv1_reachable s Hr) as (_ & _ & HC). split; apply HC. Qed.
+
+  (* a provider visible in every snapshot that was current during the read is reported *)
+  Theorem present_before_and_after_never_missing_l s t th v :
+    reachable s -> threads s t = Some th -> t_pc th = Fin (ResGet v) ->
+    (forall i st mid uid, l_born th <= i <= cur_ver s -> hist s !! i = Some (st, mid, uid) ->
+       is_Some (visible st (call_pid (t_call th)))) ->
+    exists rcd st mid uid, v = Some rcd /\ hist s !! l_ver th = Some (st, mid, uid) /\
+      visible st (call_pid (t_call th)) = Some rcd.
+  Proof.
+    intros Hr Eth Hpc Hall.
+    pose proof (reads_linearise_at_load_l s t th _ Hr Eth Hpc) as (st & mid & uid & Hv & Hview & Hb).
+    destruct (Hall (l_ver th) st mid uid Hb Hv) as [rcd Hvis].
+    apply visible_view in Hvis as Hvv. rewrite Hvv in Hview. injection Hview as <-.
+    exists rcd, st, mid, uid. auto.
+  Qed.
+
+  Lemma hist_chain s pid : InvC s -> forall d i a b,
+    (forall k st mid uid, i <= k <= i + d -> hist s !! k = Some (st, mid, uid) -> is_Some (visible st pid)) ->
+    hist s !! i = Some a -> hist s !! (i + d) = Some b ->
+    forall r r', visible a.1.1 pid = Some r -> visible b.1.1 pid = Some r' -> (eff_time r <= eff_time r')%Z.
+  Proof.
+    intros HC. destruct HC as (_ & _ & _ & _ & _ & _ & G3 & _).
+    induction d as [|d IH]; intros i a b Hall Ha Hb r r' Hr Hr'.
+    - replace (i + 0) with i in Hb by lia. rewrite Ha in Hb. injection Hb as <-.
+      rewrite Hr in Hr'. injection Hr' as <-. lia.
+    - assert (Hlt : i + d < length (hist s)) by (apply lookup_lt_Some in Hb; lia).
+      destruct (lookup_lt_is_Some_2 (hist s) (i + d) Hlt) as [[[stm midm] uidm] Hm].
+      destruct (Hall (i + d) stm midm uidm ltac:(lia) Hm) as [rm Hrm].
+      assert (E1 : (eff_time r <= eff_time rm)%Z).
+      { eapply (IH i a (stm, midm, uidm)); eauto. intros k st mid uid Hk. apply Hall. lia. }
+      replace (i + S d) with (S (i + d)) in Hb by lia.
+      pose proof (G3 (i + d) _ _ Hm Hb pid rm r' Hrm Hr'). lia.
+  Qed.
+
+  (* successive reads by one caller never go back in time for a provider that stays cached *)
+  Theorem per_reader_monotone_l s t1 t2 th1 th2 r1 r2 :
+    reachable s ->
+    threads s t2 = Some th2 -> t_prev th2 = Some t1 -> threads s t1 = Some th1 ->
+    call_pid (t_call th1) = call_pid (t_call th2) ->
+    t_pc th1 = Fin (ResGet (Some r1)) -> t_pc th2 = Fin (ResGet (Some r2)) ->
+    (forall k st mid uid, l_ver th1 <= k <= l_ver th2 -> hist s !! k = Some (st, mid, uid) ->
+       is_Some (visible st (call_pid (t_call th2)))) ->
+    l_ver th1 <= l_ver th2 /\ (eff_time r1 <= eff_time r2)%Z.
+  Proof.
+    intros Hr E2 Hp E1 Hpid Hpc1 Hpc2 Hall.
+    destruct (Inv2L_reachable s Hr) as [(_ & _ & HC) [HF1 HF2]].
+    destruct (HF2 t2 th2 t1 E2 Hp) as (th1' & E1' & _ & Hle). rewrite E1 in E1'. injection E1' as <-.
+    specialize (Hle _ Hpc1).
+    pose proof (reads_linearise_at_load_l s t1 th1 _ Hr E1 Hpc1) as (st1 & m1 & u1 & Hv1 & Hw1 & Hb1).
+    pose proof (reads_linearise_at_load_l s t2 th2 _ Hr E2 Hpc2) as (st2 & m2 & u2 & Hv2 & Hw2 & Hb2).
+    assert (Hord : l_ver th1 <= l_ver th2) by lia. split; [exact Hord|].
+    rewrite Hpid in Hw1.
+    eapply (hist_chain s (call_pid (t_call th2)) HC (l_ver th2 - l_ver th1) (l_ver th1) (st1, m1, u1) (st2, m2, u2)).
+    - intros k st mid uid Hk. apply Hall. lia.
+    - exact Hv1.
+    - replace (l_ver th1 + (l_ver th2 - l_ver th1)) with (l_ver th2) by lia. exact Hv2.
+    - cbn. unfold visible. rewrite Hw1. reflexivity.
+    - cbn. unfold visible. rewrite Hw2. reflexivity.
+  Qed.
+
+  (* the hit path: every step of a reader is enabled whatever the other threads are doing,
+     and takes it strictly closer to its return; other threads' steps do not touch it *)
+  Theorem hit_path_wait_free_l s t th :
+    reachable s -> threads s t = Some th -> reader_pc (t_pc th) = true ->
+    (t_pc th = GLookupM -> forall st mid uid, hist s !! l_ver th = Some (st, mid, uid) ->
+       is_Some (view st (call_pid (t_call th)))) ->
+    exists s' th', stepf s (Step t ENone) = Some s' /\ threads s' t = Some th' /\
+      hit_measure (t_pc th') < hit_measure (t_pc th).
+  Proof.
+    intros Hr Eth Hrp Hin. destruct (Inv2L_reachable s Hr) as [(HAA & _ & HC) [HF _]].
+    pose proof (tid_lt s t th HAA Eth) as Hlt.
+    destruct (HF t th Eth) as [_ HR].
+    cbn. rewrite Eth. unfold C07_PCacheConc.step_thread. cbn zeta.
+    destruct (t_pc th) eqn:Hpc; try discriminate Hrp; cbn.
+    - eexists _, _. split; [reflexivity|]. cbn. rewrite upd_same. split; [reflexivity|cbn; lia].
+    - destruct (obj (heap s) (l_uid th) !! call_pid (t_call th)); eexists _, _;
+        (split; [reflexivity|]); cbn; rewrite upd_same; (split; [reflexivity|cbn; lia]).
+    - destruct HR as (st & Hv & _ & Hun). destruct (hist_objs s _ _ _ _ HC Hv) as [Om _].
+      destruct (Hin eq_refl st _ _ Hv) as [v Hview]. unfold view in Hview. rewrite view_of_lookup, Hun in Hview.
+      rewrite Om.
+      assert (E2 : st_rm st !! call_pid (t_call th) = Some v) by exact Hview.
+      match goal with |- context [match ?x with _ => _ end] => replace x with (Some v) by (symmetry; exact E2) end.
+      eexists _, _. split; [reflexivity|]. cbn. rewrite upd_same. split; [reflexivity|cbn; lia].
+    - destruct (auto_on s && needs s); eexists _, _; (split; [reflexivity|]); cbn;
+        rewrite ?upd_other by lia; rewrite upd_same; (split; [reflexivity|cbn; lia]).
+    - eexists _, _. split; [reflexivity|]. cbn. rewrite upd_same. split; [reflexivity|cbn; lia].
+    - eexists _, _. split; [reflexivity|]. cbn. rewrite upd_same. split; [reflexivity|cbn; lia].
+    - eexists _, _. split; [reflexivity|]. cbn. rewrite upd_same. split; [reflexivity|cbn; lia].
+    - eexists _, _. split; [reflexivity|]. cbn. rewrite upd_same. split; [reflexivity|cbn; lia].
+  Qed.
+
+  Theorem others_do_not_touch_l s l s' t th :
+    reachable s -> threads s t = Some th -> stepf s l = Some s' ->
+    (forall e, l <> Step t e) -> threads s' t = Some th.
+  Proof.
+    intros Hr Eth Hs Hl. destruct (Inv1_reachable s Hr) as (HAA & _).
+    pose proof (tid_lt s t th HAA Eth) as Hlt.
+    destruct l as [c after|[]|t0 e]; cbn in Hs.
+    - destruct c; try discriminate;
+        (destruct (match after with Some t1 => _ | None => true end); [|discriminate]);
+        injection Hs as <-; cbn; rewrite upd_other by lia; exact Eth.
+    - destruct (auto_on s && armed s); [|discriminate]. injection Hs as <-. exact Eth.
+    - destruct (threads s t0) as [th0|] eqn:E0; [|discriminate].
+      assert (Hne : t <> t0) by (intro; subst; apply (Hl e); reflexivity).
+      destruct (step_threads s t0 th0 e s' (tid_lt s t0 th0 HAA E0) E0 Hs) as [_ Hoth].
+      destruct (Hoth t Hne) as [->|[-> _]]; [exact Eth|lia].
+  Qed.
+
+  (* automatic refresh: every start consumed its own timer fire, and the timer fires again
+     only after the goroutine that ran the refresh re-armed it *)
+  Definition b2n (b : bool) : nat := if b then 1 else 0.
+
+  Definition InvH (s : gst) : Prop :=
+    n_spawns s + b2n (needs s) <= n_fires s /\ n_fires s + b2n (armed s) <= n_rearms s + 1.
+
+  Lemma InvH_init : InvH (ginit auto).
+  Proof. unfold InvH; cbn. destruct auto; cbn; lia. Qed.
+
+  Lemma InvH_step s l s' : InvH s -> stepf s l = Some s' -> InvH s'.
+  Proof.
+    intros [H1 H2] Hs. destruct l as [c after|[]|t e]; cbn in Hs.
+    - destruct c; try discriminate;
+        (destruct (match after with Some t1 => _ | None => true end); [|discriminate]);
+        injection Hs as <-; split; assumption.
+    - destruct (auto_on s && armed s) eqn:E; [|discriminate]. injection Hs as <-.
+      apply andb_prop in E as [_ Ea]. unfold InvH; cbn. rewrite Ea in H2. cbn in H2.
+      destruct (needs s) eqn:En; cbn in *; lia.
+    - destruct (threads s t) as [th|] eqn:Eth; [|discriminate].
+      inv_step Hs; unfold InvH; cbn; try (split; assumption).
+      + match goal with E : auto_on s && needs s = true |- _ => apply andb_prop in E as [_ En] end.
+        rewrite En in H1. cbn in *. lia.
+      + destruct (armed s); cbn in *; lia.
+  Qed.
+
+  Theorem auto_refresh_at_most_once_per_interval_l s :
+    reachable s -> n_spawns s <= n_fires s /\ n_fires s <= n_rearms s + 1.
+  Proof.
+    intro Hr.
+    assert (H : InvH s) by (revert s Hr; apply LTS.invariant_reachable; [apply InvH_init|apply InvH_step]).
+    destruct H. destruct (needs s), (armed s); cbn in *; lia.
+  Qed.
+
+  (* at most one thread is ever between taking and giving back the write slot *)
+  Theorem single_writer_l s t1 t2 th1 th2 :
+    reachable s -> threads s t1 = Some th1 -> threads s t2 = Some th2 ->
+    holding (t_pc th1) = true -> holding (t_pc th2) = true -> t1 = t2.
+  Proof.
+    intros Hr E1 E2 H1 H2. destruct (InvA_reachable s Hr) as (_ & HB1 & _).
+    pose proof (HB1 t1 th1 E1 H1). pose proof (HB1 t2 th2 E2 H2). congruence.
+  Qed.
 End Proofs.
+
+(* ---------------------------------------------------------------- *)
+(* Non-vacuity: one schedule in which a refresh (merging) and a lookup that misses
+   overlap with a second reader; run by vm_compute with the real merge policy.     *)
+Definition ex_rec : rec := Rec (Some 5%Z) 1.
+Definition ex_sched : list label :=
+  [Spawn CRefresh None; Step 0 ENone;                      (* refresh takes the slot *)
+   Spawn (CGet 7) None; Step 1 ENone; Step 1 ENone; Step 1 ENone;   (* a lookup misses in the empty snapshot *)
+   Step 0 (EOuts [Reports [(7%N, ex_rec)]]);                (* the source answers *)
+   Step 0 ENone; Step 0 (ENow 1%Z); Step 0 ENone; Step 0 ENone; Step 0 ENone;
+   Spawn (CGet 7) (None); Step 2 ENone;                     (* a second reader loads the OLD snapshot *)
+   Step 0 ENone;                                            (* Store *)
+   Step 2 ENone; Step 2 ENone;                              (* ... and still misses in it *)
+   Spawn CList None; Step 3 ENone; Step 3 ENone;            (* a listing sees the new one *)
+   Step 0 ENone; Step 0 ENone;                              (* refreshes++, release *)
+   Step 1 ENone; Step 1 ENone; Step 1 ENone; Step 1 ENone;  (* the first lookup: stored meanwhile *)
+   Spawn (CGet 7) (Some 1); Step 4 ENone; Step 4 ENone; Step 4 ENone; Step 4 ENone].
+
+Example ex_run :
+  match LTS.run (stepf real_need_merge 500) (ginit false) ex_sched with
+  | Some s =>
+    slot s = None /\ length (hist s) = 2 /\ readp s = (2, 0) /\
+    option_map t_pc (threads s 0) = Some (Fin (ResRefresh false)) /\
+    option_map t_pc (threads s 1) = Some (Fin (ResGet (Some ex_rec))) /\
+    option_map t_pc (threads s 2) = Some MTake /\
+    option_map t_pc (threads s 4) = Some (Fin (ResGet (Some ex_rec))) /\
+    option_map t_prev (threads s 4) = Some (Some 1)
+  | None => False
+  end.
+Proof. vm_compute. repeat split; reflexivity. Qed.
